@@ -6,7 +6,7 @@ CONSTANTS
   Classes = {"update", "update_unknown", "auth_promote", "auth_demote", "auth_unknown_group", "auth_no_deps", "auth_unknown_dep", "auth_non_manager", "auth_dup_create", "auth_remove_nonmember", "auth_add_group_manage", "auth_add_self_group", "member_unknown_auth", "member_ptr_not_auth", "member_unknown_space", "member_new_space", "member_wrong_group", "member_dup_pointer", "member_ptr_promote", "app_unknown_space", "app_wrong_secret", "app_garbage", "app_unknown_dep", "kb_other_identity", "kb_bad_signature", "kb_expired"}
   PanicClasses = {}
   ReEmitKinds = {}
-  OkClasses = {"member_new_space", "auth_dup_create", "app_unknown_dep"}
+  OkClasses = {"member_new_space", "auth_dup_create"}
   MaxOps = 5
   MaxForge = 2
   MaxAgain = 4
